@@ -96,7 +96,8 @@ package smf
 //@ ensures [H] old(r.input.spos) <= r.input.spos && r.input.spos <= r.input.sn
 //@ ensures [H] r.input.sfault == nil ==> old(r.input.sfault) == nil
 //@ ensures [H] !old(r.headerIsRead) ==> result != ErrFinished
-//@ loop 0 invariant 0 <= i && i <= nt(r) && len(r.SMF.Tracks) == i && r.error == nil && r.headerIsRead
+//@ ensures [H] !old(r.headerIsRead) && result == nil ==> (len(r.SMF.Tracks) == 0 || fresh(r.SMF.Tracks))
+//@ loop 0 invariant 0 <= i && i <= nt(r) && len(r.SMF.Tracks) == i && r.error == nil && r.headerIsRead && (i == 0 || fresh(r.SMF.Tracks))
 //@ loop 0 invariant forall j int :: 0 <= j && j < len(r.SMF.Tracks) ==> len(r.SMF.Tracks[j]) == 0
 //@ loop 0 decreases nt(r) - i
 
@@ -205,6 +206,7 @@ package smf
 //@ ensures [H] old(r.headerIsRead) ==> hdrSame(r)
 //@ ensures [H] err == nil ==> r.error == nil
 //@ ensures [P:C05] err == nil ==> (r.headerIsRead && r.processedTracks >= 0 && r.processedTracks < int32(r.SMF.numTracks) && len(r.SMF.Tracks) == nt(r))
+//@ ensures [P:C05] err == nil ==> (0 <= pt(r) && pt(r) < len(r.SMF.Tracks))
 //@ ensures [P:C05] err == nil ==> r.input.spos > old(r.input.spos)
 // a chunk header is due after a successful read only if that read delivered the end of a track (alien chunks
 // between the tracks are skipped, SMF 1.0: "programs should ignore chunk types they do not know")
@@ -233,11 +235,77 @@ package smf
 //@ ensures [H] old(r.headerIsRead) ==> hdrSame(r)
 //@ ensures [H] err == nil ==> r.error == nil
 //@ ensures [P:C05] err == nil ==> (r.headerIsRead && r.processedTracks >= 0 && r.processedTracks < int32(r.SMF.numTracks) && len(r.SMF.Tracks) == nt(r))
+//@ ensures [P:C05] err == nil ==> (0 <= pt(r) && pt(r) < len(r.SMF.Tracks))
 //@ ensures [P:C05] err == nil ==> r.input.spos > old(r.input.spos)
 //@ ensures [P:C02] err == nil && r.expectChunk ==> (len(m) >= 2 && m[0] == 0xFF && m[1] == 0x2F)
 //@ ensures [P:C02] err == nil && r.isDone && !old(r.isDone) ==> (len(m) >= 2 && m[0] == 0xFF && m[1] == 0x2F)
 //@ ensures [P:C05] err == nil && len(m) == 0 ==> ((r.input.sfault != nil || r.input.spos == r.input.sn) && !r.expectChunk && !r.isDone)
 //@ ensures [P:C10] err == io.EOF ==> r.input.sfault == nil
 //@ ensures [P:C10] err == ErrFinished ==> old(r.isDone)
+//@ ensures [H] old(r.isDone) ==> r.isDone
 //@ ensures [H] old(r.input.spos) <= r.input.spos && r.input.spos <= r.input.sn
 //@ ensures [H] r.input.sfault == nil ==> old(r.input.sfault) == nil
+
+// ---------------------------------------------------------------- tempo map built while reading (safety; the values are C11)
+//@ macro tcsOK(t) = forall i int :: 0 <= i && i < len(t) ==> t[i] != nil
+
+//@ func (TempoChanges).TempoChangeAt
+//@ requires tcsOK(t)
+//@ loop 0 invariant -1 <= rangeindex && rangeindex < len(t)
+//@ loop 0 decreases len(t) - rangeindex
+
+//@ func (TempoChanges).TempoAt
+//@ requires tcsOK(t)
+
+//@ func (*SMF).calculateAbsTimes
+//@ requires tcsOK(s.tempoChanges)
+//@ modifies any(TempoChange).AbsTimeMicroSec
+//@ loop 0 invariant -1 <= rangeindex && rangeindex < len(s.tempoChanges) && s.tempoChanges == old(s.tempoChanges) && tcsOK(s.tempoChanges)
+//@ loop 0 decreases len(s.tempoChanges) - rangeindex
+
+//@ func (*SMF).finishTempoChanges
+//@ requires tcsOK(s.tempoChanges)
+//@ modifies s.tempoChangesFinished, s.tempoChanges[:], any(TempoChange).AbsTimeMicroSec
+//@ ensures [H] tcsOK(s.tempoChanges)
+
+// ---------------------------------------------------------------- all tracks
+//@ func (*reader).ReadTracks
+//@ uses vlqSpanDef
+//@ requires rdInv(r) && trkInv(r) && r.headerIsRead && errOK(r) && r.error == nil && tcsOK(r.SMF.tempoChanges)
+//@ modifies *r, *r.SMF, r.SMF.Tracks[:], r.SMF.tempoChanges[:], any(TempoChange).AbsTimeMicroSec, r.input.spos, r.input.sfault, *asptr(r.runningStatus, runningstatus.smfreader)
+//@ ensures [H] err != nil && r.SMF == old(r.SMF) && r.input == old(r.input)
+//@ ensures [H] r.SMF.format == old(r.SMF.format) && r.SMF.numTracks == old(r.SMF.numTracks) && r.SMF.TimeFormat == old(r.SMF.TimeFormat) && len(r.SMF.Tracks) == old(len(r.SMF.Tracks))
+//@ ensures [H] trkInv(r)
+//@ ensures [P:C10] err == io.EOF ==> r.input.sfault == nil
+//@ ensures [P:C10] err == ErrFinished ==> r.isDone
+//@ ensures [H] old(r.input.spos) <= r.input.spos && r.input.spos <= r.input.sn
+//@ loop 0 invariant rdInv(r) && r.headerIsRead && r.SMF == old(r.SMF) && r.input == old(r.input) && r.runningStatus == old(r.runningStatus)
+//@ loop 0 invariant trkInv(r)
+//@ loop 0 invariant errOK(r) && r.error == nil
+//@ loop 0 invariant r.SMF.format == old(r.SMF.format) && r.SMF.numTracks == old(r.SMF.numTracks) && r.SMF.TimeFormat == old(r.SMF.TimeFormat) && r.SMF.Tracks == old(r.SMF.Tracks)
+//@ loop 0 invariant tcsOK(r.SMF.tempoChanges) && (r.SMF.tempoChanges == old(r.SMF.tempoChanges) || fresh(r.SMF.tempoChanges))
+//@ loop 0 invariant old(r.input.spos) <= r.input.spos && r.input.spos <= r.input.sn
+//@ loop 0 decreases r.input.sn - r.input.spos
+
+// ---------------------------------------------------------------- ReadFrom
+//@ func newReader
+//@ ensures [H] fresh(result) && fresh(result.SMF) && result.input == src && !result.isDone && !result.expectChunk && result.processedTracks == -1 && !result.headerIsRead && result.error == nil
+//@ ensures [H] len(result.SMF.Tracks) == 0 && len(result.SMF.tempoChanges) == 0 && result.Logger == nil
+//@ ensures [H] typeof(result.runningStatus) == typeid(*runningstatus.smfreader) && fresh(asptr(result.runningStatus, runningstatus.smfreader)) && asptr(result.runningStatus, runningstatus.smfreader).reader.status == 0
+
+// ReadFrom: header, then all tracks. Proved for calls without options (an option is a callback that edits the
+// configuration, which only carries the logger).
+//   C10: a nil error means that the source did not fail, or that it failed only after the last byte of the last
+//        announced track had been delivered (nothing is missing from the file).
+//@ func ReadFrom
+//@ uses vlqSpanDef
+//@ requires f != nil && 0 <= f.spos && f.spos <= f.sn && len(opts) == 0
+//@ modifies f.spos, f.sfault, any(TempoChange).AbsTimeMicroSec
+//@ ensures [P:C05] result1 == nil ==> (result0 != nil && fresh(result0) && len(result0.Tracks) == int(result0.numTracks))
+//@ ensures [P:C02] result1 == nil ==> (isMThd(f.sdata, old(f.spos)) && result0.format == be16(f.sdata, old(f.spos) + 8) && result0.format <= 2 && result0.numTracks == be16(f.sdata, old(f.spos) + 10))
+//@ ensures [P:C02] result1 == nil && hdrMetric(f.sdata, old(f.spos) + 8) ==> (typeof(result0.TimeFormat) == typeid(MetricTicks) && uint16(bval(result0.TimeFormat)) == be16(f.sdata, old(f.spos) + 12))
+//@ ensures [P:C02] result1 == nil && !hdrMetric(f.sdata, old(f.spos) + 8) ==> (typeof(result0.TimeFormat) == typeid(TimeCode) && asptr(result0.TimeFormat, TimeCode).FramesPerSecond == 0 - f.sdata[old(f.spos) + 12] && asptr(result0.TimeFormat, TimeCode).SubFrames == f.sdata[old(f.spos) + 13])
+//@ ensures [P:C05] result1 != nil ==> result0 == nil
+//@ ensures [H] old(f.spos) <= f.spos && f.spos <= f.sn
+//@ loop 0 invariant -1 <= rangeindex && rangeindex < len(opts)
+//@ loop 0 decreases len(opts) - rangeindex
